@@ -295,3 +295,59 @@ Theorem lobc_fuel_mono dc a o fuel fuel' votes n prev : (fuel <= fuel')%nat ->
   lobc_calculate dc a o fuel votes n prev <> BC_fuel ->
   lobc_calculate dc a o fuel' votes n prev = lobc_calculate dc a o fuel votes n prev.
 Proof. intros Hle. unfold lobc_calculate. apply bc_calculate_fuel_mono. exact Hle. Qed.
+
+(* ------------------------------------------------------------------ AdjustedSeatCount with ByParty around the calculator *)
+Lemma evaluate_gains_pos d v n p c gains tie :
+  HighestAverages.evaluate d v n p c = HA_ok gains tie -> Forall (fun cs : C * Z => 0 < snd cs) gains.
+Proof.
+  unfold evaluate. destruct (initial_quotients d v p c n); [discriminate|]. intros [= <- _].
+  apply Forall_forall. intros [k g] Hin. apply in_flat_map in Hin. destruct Hin as ([c' t] & _ & Hin).
+  destruct (0 <? t - dget_or p c' 0) eqn:E; [|destruct Hin]. destruct Hin as [[= <- <-]|[]].
+  apply Z.ltb_lt in E. exact E.
+Qed.
+
+Lemma bp_allocate_pos da votes prev overall : forall gains,
+  bp_allocate da votes prev overall = BP_ok gains -> Forall (fun g : Cty * C * Z => 0 < snd g) gains.
+Proof.
+  induction overall as [|[[p|l] np] t IH]; simpl; intros gains.
+  - intros [= <-]. constructor.
+  - destruct (HighestAverages.evaluate da (party_votes votes p) np (party_prev prev p) []) as [g tie|] eqn:E; [|discriminate].
+    destruct (bp_allocate da votes prev t) as [l| |]; try discriminate.
+    destruct tie; [discriminate|]. intros [= <-]. apply Forall_app. split; [|apply IH; reflexivity].
+    pose proof (evaluate_gains_pos _ _ _ _ _ _ _ E) as Hg. apply Forall_forall. intros x Hx.
+    apply in_map_iff in Hx. destruct Hx as ([c s] & <- & Hin). rewrite Forall_forall in Hg. exact (Hg _ Hin).
+  - destruct (bp_allocate da votes prev t); discriminate.
+Qed.
+
+Theorem by_party_pos dn da votes h prev gains :
+  by_party dn da votes h prev = BP_ok gains -> Forall (fun g : Cty * C * Z => 0 < snd g) gains.
+Proof. unfold by_party. destruct (ha_eval dn (qtotals votes) h); try discriminate. apply bp_allocate_pos. Qed.
+
+(* The house is the baseline plus the non-negative adjustment; the second stage only adds seats; when all first
+   round seats belong to tier parties, the national distribution ByParty starts from - the one of the enlarged
+   house - gives every tier party at least its first round seats and at least its constituency-wise share. *)
+Theorem adjusted_byc_meaning dc a dn da fuel votes n prev adj fin :
+  NoDup (map fst votes) -> wf_prev pk_eqb prev ->
+  adjusted_byc dc a (Ov_given dn) dn da fuel votes n prev = ASC adj fin ->
+  0 <= adj /\ fin = by_party dn da votes (n + adj) prev /\
+  (forall gains, fin = BP_ok gains -> Forall (fun g : Cty * C * Z => 0 < snd g) gains) /\
+  exists res, constituency_evaluator pk_eqb (ha_eval dc) PK a votes n = Ok res /\
+    (direct_in_tier pk_eqb res prev ->
+     exists nat, ha_eval dn (qtotals votes) (n + adj) = Ok nat /\
+       forall k, tier pk_eqb res k = true ->
+         zsumf (fun c => direct pk_eqb prev c k) (cty_list votes prev) <= kget0 pk_eqb nat k /\
+         zsumf (fun c => share pk_eqb res c k) (cty_list votes prev) <= kget0 pk_eqb nat k).
+Proof.
+  intros Hn Hwp. unfold adjusted_byc.
+  destruct (lobc_calculate dc a (Ov_given dn) fuel votes n prev) as [adj'| | |] eqn:Ec; try discriminate.
+  intros [= <- <-].
+  destruct (lobc_calculate_meaning dc a (Ov_given dn) fuel votes n prev adj' Hn Hwp Ec)
+    as (res & Hc & Hr & (pr & Hp1 & Hp2) & _).
+  split; [exact Hr|]. split; [reflexivity|]. split; [intros gains Hg; exact (by_party_pos _ _ _ _ _ _ Hg)|].
+  exists res. split; [exact Hc|]. intros Hd.
+  rewrite (drop_zero_tier pk_eqb pk_eqb_sym pk_eqb_trans res prev Hd) in Hp1.
+  replace (n - 0 + adj') with (n + adj') in Hp1 by lia. simpl in Hp1.
+  exists pr. split; [exact Hp1|]. intros k Ht. pose proof (Hp2 k Ht) as Hk. split.
+  - eapply Z.le_trans; [apply need_ge_direct|exact Hk].
+  - eapply Z.le_trans; [apply need_ge_share|exact Hk].
+Qed.
